@@ -9,13 +9,22 @@ use std::collections::{BTreeMap, BTreeSet};
 pub struct Sut {
     pub parsers: Vec<NetflowParser>,
     pub ops: Vec<(usize, Vec<u8>)>,
+    /// template ids the application removed from a public cache map: (number of ops before it,
+    /// parser, map name, id) - replayed in order with the parse_bytes calls
+    pub evictions: Vec<(usize, usize, &'static str, u16)>,
     pub calls: u64,
     pub bytes: u64,
 }
 
 impl Sut {
     pub fn new(n: usize) -> Sut {
-        Sut { parsers: (0..n).map(|_| NetflowParser::default()).collect(), ops: vec![], calls: 0, bytes: 0 }
+        Sut { parsers: (0..n).map(|_| NetflowParser::default()).collect(), ops: vec![], evictions: vec![], calls: 0, bytes: 0 }
+    }
+    /// The application removes one id from one of the public cache maps (as a collector that
+    /// expires templates does). Returns whether the id was present.
+    pub fn evict(&mut self, p: usize, map: &'static str, id: u16) -> bool {
+        self.evictions.push((self.ops.len(), p, map, id));
+        evict_from(&mut self.parsers[p], map, id)
     }
     pub fn parse(&mut self, p: usize, buf: &[u8]) -> Vec<NetflowPacket> {
         self.ops.push((p, buf.to_vec()));
@@ -24,10 +33,30 @@ impl Sut {
         self.parsers[p].parse_bytes(buf)
     }
     pub fn replay_json(&self) -> Value {
+        let mut ops: Vec<Value> = vec![];
+        for (i, (p, b)) in self.ops.iter().enumerate() {
+            for e in self.evictions.iter().filter(|e| e.0 == i) {
+                ops.push(json!({"parser": e.1, "evict": {"map": e.2, "id": e.3}}));
+            }
+            ops.push(json!({"parser": p, "hex": crate::util::hex(b)}));
+        }
+        for e in self.evictions.iter().filter(|e| e.0 >= self.ops.len()) {
+            ops.push(json!({"parser": e.1, "evict": {"map": e.2, "id": e.3}}));
+        }
         json!({
             "parsers": self.parsers.iter().map(|p| { let mut v: Vec<u16> = p.allowed_versions.iter().cloned().collect(); v.sort(); if v.len() > 64 { json!("all-65536") } else { json!(v) } }).collect::<Vec<_>>(),
-            "ops": self.ops.iter().map(|(p, b)| json!({"parser": p, "hex": crate::util::hex(b)})).collect::<Vec<_>>(),
+            "ops": ops,
         })
+    }
+}
+
+pub fn evict_from(p: &mut NetflowParser, map: &str, id: u16) -> bool {
+    match map {
+        "v9.templates" => p.v9_parser.templates.remove(&id).is_some(),
+        "v9.options_templates" => p.v9_parser.options_templates.remove(&id).is_some(),
+        "ipfix.templates" => p.ipfix_parser.templates.remove(&id).is_some(),
+        "ipfix.options_templates" => p.ipfix_parser.options_templates.remove(&id).is_some(),
+        _ => false,
     }
 }
 
